@@ -69,6 +69,22 @@ func init() {
 		}
 		return normStr(out)
 	}
+	intrinsics[v+"ASCIIString"] = func(fr *frame, args []value) value {
+		name, n := args[0].(string), args[1].(int)
+		out := make([]value, n)
+		for k := 0; k < n; k++ {
+			out[k] = fr.i.inputInt(fmt.Sprintf("%s[%d]", name, k), types.Uint8, big0, big.NewInt(127))
+		}
+		return normStr(out)
+	}
+	intrinsics[v+"ASCIIBytes"] = func(fr *frame, args []value) value {
+		name, n := args[0].(string), args[1].(int)
+		out := make([]value, n)
+		for k := 0; k < n; k++ {
+			out[k] = fr.i.inputInt(fmt.Sprintf("%s[%d]", name, k), types.Uint8, big0, big.NewInt(127))
+		}
+		return out
+	}
 	intrinsics[v+"Choice"] = func(fr *frame, args []value) value {
 		return fr.i.choice(args[0].(string), args[1].(int))
 	}
@@ -321,6 +337,33 @@ func init() {
 			return notHandled{}
 		}
 		return symFmt(fr, args[0], true)
+	}
+
+	// UTF-8 decoding: ASCII fast path without the bit tricks of the real code
+	decodeASCII := func(fr *frame, first value) value {
+		b, ok := first.(sym)
+		if !ok {
+			return notHandled{}
+		}
+		c := fr.i.run.ctx
+		if b.t.InRange(big0, big.NewInt(0x7f)) || fr.i.branch(c.Lt(b.t, c.Int64(0x80))) {
+			return tuple{fr.i.mkval(b.t, types.Int32), 1}
+		}
+		return notHandled{}
+	}
+	intrinsics["unicode/utf8.DecodeRuneInString"] = func(fr *frame, args []value) value {
+		s, ok := args[0].(symstr)
+		if !ok || len(s) == 0 {
+			return notHandled{}
+		}
+		return decodeASCII(fr, s[0])
+	}
+	intrinsics["unicode/utf8.DecodeRune"] = func(fr *frame, args []value) value {
+		s, ok := args[0].([]value)
+		if !ok || len(s) == 0 {
+			return notHandled{}
+		}
+		return decodeASCII(fr, s[0])
 	}
 
 	// errors / fmt: opaque error objects
